@@ -223,7 +223,35 @@ def np_abs(interp, args, kwargs, node, frame):
     return NotImplemented
 
 
+def np_hstack(interp, args, kwargs, node, frame):
+    """np.hstack of ONE aggregate series is that series (the single-component case of a concatenation; several series of different
+    frames have no aggregate model)"""
+    v = args[0]
+    if isinstance(v, (list, tuple)) and len(v) == 1 and isinstance(v[0], AggSeries):
+        return v[0]
+    if isinstance(v, (list, tuple)) and any(isinstance(x, AggSeries) for x in v):
+        raise Unsupported("concatenation of several aggregate series", node)
+    return NotImplemented
+
+
+def np_mean_sum(fname):
+    def f(interp, args, kwargs, node, frame):
+        v = args[0]
+        if isinstance(v, AggSeries) and len(args) == 1 and not kwargs:
+            nonneg = v.key[0] in ("sq", "abs")
+            tot = agg(interp, "sum", v.key, (lambda c: c >= 0) if nonneg else None)
+            if fname == "sum":
+                return tot
+            interp.safety_nonzero(to_z3(v.frame.n), node, frame)
+            return tot / to_real(v.frame.n)
+        return NotImplemented
+    return f
+
+
 def install():
+    libmodels.LIB["numpy.hstack"] = _wrap(np_hstack, libmodels.LIB.get("numpy.hstack"), "numpy.hstack")
+    libmodels.LIB["numpy.mean"] = _wrap(np_mean_sum("mean"), libmodels.LIB.get("numpy.mean"), "numpy.mean")
+    libmodels.LIB["numpy.sum"] = _wrap(np_mean_sum("sum"), libmodels.LIB.get("numpy.sum"), "numpy.sum")
     prev_q = libmodels.LIB.get("numpy.quantile")
     libmodels.LIB["numpy.quantile"] = _wrap(np_quantile, prev_q, "numpy.quantile")
     libmodels.LIB["numpy.diff"] = _wrap(np_diff, libmodels.LIB.get("numpy.diff"), "numpy.diff")
